@@ -223,6 +223,9 @@ def unused_parameters(f: FuncInfo) -> List[str]:
     real = [s for s in body if not (isinstance(s, ast.Expr) and isinstance(s.value, ast.Constant))]
     if not real or all(isinstance(s, (ast.Pass, ast.Raise)) for s in real):
         return []
+    # a function whose straight-line body ends in `raise` (not implemented / not allowed) takes its parameters for the signature only
+    if isinstance(real[-1], ast.Raise) and not any(isinstance(x, (ast.Return, ast.Yield, ast.YieldFrom)) for x in ast.walk(f.node)):
+        return []
     used = {n.id for n in ast.walk(f.node) if isinstance(n, ast.Name) and isinstance(n.ctx, (ast.Load, ast.Del))}
     # locals()/vars() would use everything
     if any(isinstance(n, ast.Call) and isinstance(n.func, ast.Name) and n.func.id in ("locals", "vars") for n in ast.walk(f.node)):
